@@ -91,6 +91,102 @@ example : ∃ fd k1 k2, step exK4 (.open ["f"] .w { trunc := true } 0) = (k1, .n
     step k1 (.write 0 [9]) = (k2, .num 1) ∧ lookup k2.tree ["f"] = some (.reg 420 [9]) :=
   ⟨_, _, _, rfl, rfl, rfl⟩
 
+/-! ## the close-on-exec flag of every new descriptor -/
+
+theorem tmpfile_no_cloexec (k k' : K) (fd : Nat) (h : tmpfile k = .ok fd k') :
+    k.fds fd = none ∧ (∀ m, m < fd → k.fds m ≠ none) ∧ fd < k.limit ∧
+    k'.fds fd = some { ofd := k.ofds.length, cloexec := false } ∧ (∀ n, n ≠ fd → k'.fds n = k.fds n) := by
+  unfold tmpfile at h
+  split at h
+  · simp at h
+  · rename_i n hn
+    obtain ⟨_, h2, h3, h4⟩ := lowest_fd k 0 n hn
+    injection h with h1 hk; subst h1 hk
+    refine ⟨h3, fun m hm => h4 m (Nat.zero_le _) hm, h2, by simp [setFd], ?_⟩
+    intro m hm; simp [setFd, hm]
+
+theorem dup_sets_flag (k k' : K) (fd min n : Nat) (c : Bool) (h : dup k fd min c = .ok n k') :
+    ∃ e, k.fds fd = some e ∧ k'.fds n = some { ofd := e.ofd, cloexec := c } ∧ min ≤ n ∧ k.fds n = none := by
+  unfold dup at h
+  split at h
+  · simp at h
+  · rename_i e he
+    split at h
+    · simp at h
+    · split at h
+      · simp at h
+      · rename_i n' hn'
+        obtain ⟨h1, _, h3, _⟩ := lowest_fd k min n' hn'
+        injection h with ha hb; subst ha hb
+        exact ⟨e, he, by simp [setFd], h1, h3⟩
+
+theorem getfd_of_entry (k : K) (fd : Nat) (e : FdEntry) (h : k.fds fd = some e) :
+    (step k (.getfd fd)).2 = .flag e.cloexec := by
+  simp [step, getfd, h]
+
+/-- ★ What `fcntl(F_GETFD)` answers right after each call that creates a descriptor, as the driver computes
+    it: `open` — the O_CLOEXEC it was given; `open_tmpfile` (here-documents) — NOT set; `pipe` — not set on
+    either end; `dup` (F_DUPFD / F_DUPFD_CLOEXEC) — as requested; `dup2` onto another descriptor — cleared. -/
+theorem descriptor_creation_flags (k k' : K) :
+    (∀ p a f m fd, step k (.open p a f m) = (k', .num fd) → (step k' (.getfd fd)).2 = .flag f.cloexec) ∧
+    (∀ fd, step k .tmp = (k', .num fd) → (step k' (.getfd fd)).2 = .flag false) ∧
+    (∀ r w, step k .pipe = (k', .pair r w) →
+      (step k' (.getfd r)).2 = .flag false ∧ (step k' (.getfd w)).2 = .flag false) ∧
+    (∀ src min c n, step k (.dup src min c) = (k', .num n) → (step k' (.getfd n)).2 = .flag c) ∧
+    (∀ a b n, a ≠ b → step k (.dup2 a b) = (k', .num n) → (step k' (.getfd n)).2 = .flag false) := by
+  refine ⟨?_, ?_, ?_, ?_, ?_⟩
+  · intro p a f m fd h
+    simp only [step] at h
+    split at h
+    · simp at h
+    · split at h
+      · rename_i fd' k'' ho
+        injection h with h1 h2; subst h1; injection h2 with h2; subst h2
+        exact getfd_of_entry _ _ _ (open_lowest_fd k _ p a f m _ ho).2.2.2.1
+      · simp at h
+  · intro fd h
+    simp only [step] at h
+    split at h
+    · rename_i fd' k'' ho
+      injection h with h1 h2; subst h1; injection h2 with h2; subst h2
+      exact getfd_of_entry _ _ _ (tmpfile_no_cloexec k _ _ ho).2.2.2.1
+    · simp at h
+  · intro r w h
+    simp only [step] at h
+    split at h
+    · rename_i r' w' k'' ho
+      injection h with h1 h2; subst h1
+      injection h2 with hr hw; subst hr hw
+      have hp := (pipe_two_lowest k).1 _ _ _ ho
+      exact ⟨getfd_of_entry _ _ _ hp.2.2.2.2.2.2.1, getfd_of_entry _ _ _ hp.2.2.2.2.2.2.2.1⟩
+    · simp at h
+  · intro src min c n h
+    simp only [step] at h
+    split at h
+    · rename_i n' k'' ho
+      injection h with h1 h2; subst h1; injection h2 with h2; subst h2
+      obtain ⟨e, _, he, _⟩ := dup_sets_flag k _ src min _ c ho
+      exact getfd_of_entry _ _ _ he
+    · simp at h
+  · intro a b n hab h
+    simp only [step] at h
+    split at h
+    · rename_i n' k'' ho
+      injection h with h1 h2; subst h1; injection h2 with h2; subst h2
+      have hl := dup2_laws k a b
+      cases hfa : k.fds a with
+      | none => rw [hl.1 hfa] at ho; simp at ho
+      | some e =>
+        by_cases hb : b < k.limit
+        · obtain ⟨k2, h1, h2, _⟩ := hl.2.2.2 e hfa hb hab
+          rw [h1] at ho
+          injection ho with hn hk; subst hn hk
+          exact getfd_of_entry _ _ _ h2
+        · rw [hl.2.1 e hfa (by omega)] at ho; simp at ho
+    · simp at h
+
+example : ∃ k', step exK1 .tmp = (k', .num 1) ∧ (step k' (.getfd 1)).2 = .flag false := ⟨_, rfl, rfl⟩
+
 /-! ## no dangling descriptors, in every reachable state -/
 
 /-- every open descriptor is below the limit and refers to an existing open file description -/
@@ -288,6 +384,15 @@ theorem wf_fillPipe {k k' : K} (h : WF k) {fd : Nat} {u : Unit} (ho : fillPipe k
     | (simp at ho; done)
     | (injection ho with h1 h2; subst h2; exact wf_tree (wf_updOfd h _ _) _)
 
+theorem wf_tmpfile {k k' : K} (h : WF k) {fd : Nat} (ho : tmpfile k = .ok fd k') : WF k' := by
+  unfold tmpfile at ho
+  split at ho
+  · simp at ho
+  · rename_i n hn
+    have hlt := (lowest_fd k 0 n hn).2.1
+    injection ho with h1 h2; subst h2
+    exact wf_setFd_lt h n _ _ _ hlt (by simp) (by simp)
+
 theorem wf_close {k : K} (h : WF k) (fd : Nat) : WF (close k fd) := by
   intro n x hx
   simp only [close, setFd] at hx
@@ -332,6 +437,7 @@ theorem wf_step (k : K) (op : Op) (h : WF k) : WF (step k op).1 := by
   case rlim => exact h
   case fill fd => split; (rename_i hk; exact wf_fillPipe h hk); exact h
   case sel fd w => split <;> exact h
+  case tmp => split; (rename_i hk; exact wf_tmpfile h hk); exact h
 
 /-- ★ In every state the driver can reach from a well-formed initial state, by any sequence of operations,
     every open descriptor is below the limit and resolves to an open file description: the hypotheses
